@@ -95,7 +95,11 @@ func RunVariants(prop, repo, verif string) any {
 			defer func() { rep.Results[i] = r }()
 			var args []string
 			if v.Patch != "" {
-				pb, err := os.ReadFile(v.Patch)
+				pp := v.Patch
+				if !filepath.IsAbs(pp) {
+					pp = filepath.Join(verif, pp)
+				}
+				pb, err := os.ReadFile(pp)
 				if err != nil {
 					r.Outcome = "skipped (patch absent)"
 					return
